@@ -78,6 +78,10 @@ pub struct Case {
     pub key_style: u8,
     #[serde(default)]
     pub subdirs: bool,
+    /// disk: the sequential setup is performed by an EARLIER cache instance on the same directory; the tasks share a
+    /// new instance that has not indexed those files yet (its get / remove fall back to the file on disk)
+    #[serde(default)]
+    pub earlier_instance: bool,
 }
 
 #[derive(Clone, Debug, PartialEq)]
@@ -314,7 +318,7 @@ impl Scenario for Conc {
         "exploration"
     }
     fn rule(&self) -> &'static str {
-        "(One run in three spells its keys with dots - obj.<i>, versions-1.15.<i>, k<i> / k<i>.idx; the disk cache has hashed sub-directories in 30 % of the runs. One run in six: all puts of a key, whichever task issues them, write IDENTICAL bytes; otherwise every put writes bytes of its own.) Per run one shared MemoryCache or DiskCache, 2-3 tasks x 1-3 operations from {get, contains, put, put_with_ttl(0 = already expired), put_with_ttl(24h), remove, clear(memory only)} on 1-2 keys (every written value unique), optionally after a sequential setup that leaves an expired entry behind. Each task is a real OS thread; exactly one runs at a time and at every sched_point hook (between consecutive shared-state accesses: map get/remove/insert, counter updates, temp-file open/write/fsync/rename, index update) a seeded chooser (uniform random or PCT with 1-3 priority change points) decides who runs next. Invocations and responses are stamped with a global sequence number; a Wing-Gong/Lowe search looks for a linearization accepted by the sequential cache specification; any Err is a violation; at quiescence size()/usage must equal what a probe of every key retrieves. A third arm (tiny max_entries) exercises the eviction loops and checks values, errors and accounting only. A fourth arm shares one DynamicContainer (feature verif-hooks: its RwLocks become try-lock + yield-to-scheduler, so threads can be preempted inside save_all while holding the index lock): 2-3 tasks x 1-2 operations from {write, read, query, remove} on 1-2 encoding keys, preempted between archive write / index add / save and between create / write / fsync / rename of every index temp file; oracle: no panic, no deadlock (all unfinished tasks waiting for a lock), no error for an operation that did not overlap a mutator of the same key, reads return exactly the content written, the history extended by a sequential query+read of every key at quiescence is linearizable against a set specification, and a fresh container opened on the same directory answers exactly as the live one. Non-trivial = >= 2 state-changing ops and >= 1 context switch at a hook site; distinct = hash of (case, schedule, results)."
+        "(One run in three spells its keys with dots - obj.<i>, versions-1.15.<i>, k<i> / k<i>.idx; the disk cache has hashed sub-directories in 30 % of the runs, and in a quarter of them the sequential setup was done by an EARLIER instance on the same directory (the shared instance has not indexed those files). One run in six: all puts of a key, whichever task issues them, write IDENTICAL bytes; otherwise every put writes bytes of its own.) Per run one shared MemoryCache or DiskCache, 2-3 tasks x 1-3 operations from {get, contains, put, put_with_ttl(0 = already expired), put_with_ttl(24h), remove, clear(memory only)} on 1-2 keys (every written value unique), optionally after a sequential setup that leaves an expired entry behind. Each task is a real OS thread; exactly one runs at a time and at every sched_point hook (between consecutive shared-state accesses: map get/remove/insert, counter updates, temp-file open/write/fsync/rename, index update) a seeded chooser (uniform random or PCT with 1-3 priority change points) decides who runs next. Invocations and responses are stamped with a global sequence number; a Wing-Gong/Lowe search looks for a linearization accepted by the sequential cache specification; any Err is a violation; at quiescence size()/usage must equal what a probe of every key retrieves. A third arm (tiny max_entries) exercises the eviction loops and checks values, errors and accounting only. A fourth arm shares one DynamicContainer (feature verif-hooks: its RwLocks become try-lock + yield-to-scheduler, so threads can be preempted inside save_all while holding the index lock): 2-3 tasks x 1-2 operations from {write, read, query, remove} on 1-2 encoding keys, preempted between archive write / index add / save and between create / write / fsync / rename of every index temp file; oracle: no panic, no deadlock (all unfinished tasks waiting for a lock), no error for an operation that did not overlap a mutator of the same key, reads return exactly the content written, the history extended by a sequential query+read of every key at quiescence is linearizable against a set specification, and a fresh container opened on the same directory answers exactly as the live one. Non-trivial = >= 2 state-changing ops and >= 1 context switch at a hook site; distinct = hash of (case, schedule, results)."
     }
     fn assumptions(&self) -> Vec<&'static str> {
         vec![
@@ -391,7 +395,8 @@ impl Scenario for Conc {
         let same_value = rng.chance(1, 6);
         let key_style = if rng.chance(1, 3) { rng.range(1, 3) as u8 } else { 0 };
         let subdirs = rng.chance(3, 10);
-        Case { sut: sut.to_string(), nkeys, setup, tasks, strategy, sched_seed, schedule: None, same_value, key_style, subdirs }
+        let earlier_instance = sut == "disk" && rng.chance(1, 4);
+        Case { sut: sut.to_string(), nkeys, setup, tasks, strategy, sched_seed, schedule: None, same_value, key_style, subdirs, earlier_instance }
     }
 
     fn execute(&self, case: &Case, ctx: &mut Ctx) -> Option<Violation> {
@@ -456,7 +461,7 @@ fn run(case: &Case, ctx: &mut Ctx) -> Option<Violation> {
     let evict = case.sut == "memory_evict";
     let disk = case.sut == "disk";
     let mode = if disk { Mode::Disk } else { Mode::Mem };
-    let sut = if disk {
+    let mut sut = if disk {
         let cfg = DiskCacheConfig::new(ctx.root.join("cache")).with_subdirectories(case.subdirs, 1);
         match DiskCache::<SimKey>::new(cfg) {
             Ok(c) => Sut::Disk(Arc::new(c)),
@@ -486,6 +491,10 @@ fn run(case: &Case, ctx: &mut Ctx) -> Option<Violation> {
     let norm = |op: &COp| -> COp {
         match op {
             COp::Get(k) => COp::Get(k % nk),
+            // (contains() answers from the in-memory index alone: for a file an EARLIER instance left it says false
+            // until a get has indexed it - the in-memory-index limitation recorded as C10-F5 / C10-F8, sequential and
+            // not a race: with an earlier instance the tasks read with get)
+            COp::Contains(k) if case.earlier_instance => COp::Get(k % nk),
             COp::Contains(k) => COp::Contains(k % nk),
             COp::Put(k) => COp::Put(k % nk),
             COp::PutTtl0(k) => COp::PutTtl0(k % nk),
@@ -500,6 +509,11 @@ fn run(case: &Case, ctx: &mut Ctx) -> Option<Violation> {
     let mut init = vec![KS::Absent; nk];
     for (i, op) in case.setup.iter().enumerate() {
         let op = norm(op);
+        // (an entry that expires in the EARLIER instance has no expiry in the new one - C10-F5, not a race: with an
+        // earlier instance the setup leaves no expired entry behind)
+        if case.earlier_instance && matches!(op, COp::PutTtl0(_)) {
+            continue;
+        }
         let id = 0x5E70_0000 + i as u64;
         let res = do_op(c.as_ref(), &keys, &op, id);
         if let Res::Err(e) = &res {
@@ -508,6 +522,16 @@ fn run(case: &Case, ctx: &mut Ctx) -> Option<Violation> {
         if !spec_step(mode, &mut init, &op, id, &res) {
             return Some(Violation::new("C11.sequential", "sequential_mismatch", format!("C11/{}/sequential_mismatch", case.sut), format!("setup op #{i} {op:?} returned {res:?}, which the sequential specification does not allow")));
         }
+    }
+
+    drop(c);
+    if disk && case.earlier_instance {
+        let cfg = DiskCacheConfig::new(ctx.root.join("cache")).with_subdirectories(case.subdirs, 1);
+        sut = match DiskCache::<SimKey>::new(cfg) {
+            Ok(c) => Sut::Disk(Arc::new(c)),
+            Err(e) => panic!("harness: disk cache (second instance): {e}"),
+        };
+        ctx.count("runs_on_a_directory_filled_by_an_earlier_instance");
     }
 
     // ---- concurrent tasks under the scheduler ----
